@@ -440,6 +440,7 @@ fn defs_for(ctx: &Ctx, count: usize, mel_bias: bool, salt: u64) -> Vec<Def> {
 		derive_mel: true,
 		derive_compact_as: false,
 		dumb_trait_bound: false,
+		mel_bound: false,
 	};
 	let var = |skip: bool| VarDef { index_attr: None, discriminant: None, skip, fields: vec![], tuple: false };
 	defs.push(unit("AllSkipped1", vec![var(true)]));
